@@ -250,7 +250,15 @@ def ini_case(draw):
     for _ in range(nres):
         k = draw(st.sampled_from(["inf", "inf", "more", "ack", "nak", "atn",
                                   "rtox", "rtox0", "dsl", "rls", "psl",
-                                  "wrongpni", "junk"]))
+                                  "wrongpni", "junk", "rtoxseq", "rtoxseq"]))
+        if k == "rtoxseq":
+            # 1..3 well-formed timeout extension requests in a row, then one
+            # that is well-formed, without value, zero or beyond the maximum
+            n = draw(st.integers(1, 3))
+            last = draw(st.sampled_from([b"", b"", b"\x00", b"\x3c", b"\x05"]))
+            res.append((k, pni, bytes(draw(st.integers(1, 59))
+                                      for _ in range(n)) + b"|" + last))
+            continue
         res.append((k, pni, draw(st.binary(max_size=12))))
         if k in ("inf", "more", "ack"):
             pni = (pni + 1) & 3
@@ -285,6 +293,11 @@ def ini_frames(case):
             frames.append(frame106(dep_pdu(c, 9, 0, data[:1] or b"\x02", did)))
         elif k == "rtox0":
             frames.append(frame106(dep_pdu(c, 9, 0, b"", did)))
+        elif k == "rtoxseq":
+            good, last = bytes(data).split(b"|", 1)
+            for v in good:
+                frames.append(frame106(dep_pdu(c, 9, 0, bytes([v]), did)))
+            frames.append(frame106(dep_pdu(c, 9, 0, last, did)))
         elif k == "dsl":
             frames.append(frame106(b"\xD5\x09" + bytes([d])))
         elif k == "rls":
